@@ -67,14 +67,18 @@ def configs(tier):
                 modes = ["all"]
                 if nvar <= 4:
                     modes.append("twice")
+                if lengths and nvar <= 3 and rep_max <= 2 and (
+                        ks in (("rep", 2 ** (rep_max - 1) - 1), ("sum", 3), ("sum", 5)) or tier == "thorough"):
+                    # second simulate() after the grid / the limit was changed on the same runner
+                    modes += ["twice_setitem", "twice_add", "twice_rep_max"]
                 if lengths and rep_max in (2, 3):
                     modes += ["single:%d" % i for i in range(nvar)]
                 for mode in modes:
-                    calls = nvar * rep_max * (2 if mode == "twice" else 1)
+                    calls = nvar * rep_max * (2 if mode.startswith("twice") else 1)
                     if tier == "thorough":
                         bound = 4 if calls <= 8 else (3 if calls <= 16 else 2)
                     else:
-                        bound = 3 if calls <= 8 else (2 if calls <= 16 else 1)
+                        bound = 3 if calls <= 6 else (2 if calls <= 12 else 1)
                     out.append(dict(grid=gi, lengths=lengths, as_array=list(arr), rep_max=rep_max,
                                     keep=list(ks), mode=mode, bound=bound))
     return out
@@ -97,10 +101,12 @@ def execute(cfg, ctx, chk, lookups=True):
 
     clock = seams.VirtualClock()
     fs = None
-    runs = 2 if mode == "twice" else 1
+    runs = 2 if mode.startswith("twice") else 1
     single = int(mode.split(":")[1]) if mode.startswith("single") else None
     exc = None
     boundaries = []
+    # grid / limit used by the SECOND simulate() of the "twice_*" modes
+    pd2, rep_max2 = second_run_setup(pd, unpacked, rep_max, mode)
     try:
         with seams.patched((R, "time", clock)):
             runner = RM.ScriptedRunner(pd, unpacked, rep_max, keep, answer)
@@ -109,7 +115,9 @@ def execute(cfg, ctx, chk, lookups=True):
                 runner.set_results_filename(os.path.join(fs.root, "res"))
                 runner.partial_results_folder = os.path.join(fs.root, "partial")
             try:
-                for _ in range(runs):
+                for run_i in range(runs):
+                    if run_i == 1:
+                        change_between_runs(runner, mode, pd2, unpacked)
                     if single is None:
                         runner.simulate()
                     else:
@@ -123,6 +131,7 @@ def execute(cfg, ctx, chk, lookups=True):
         ref_log = []
         fixed = {k: v for k, v in RM._plain(pd).items() if k not in unpacked}
         vars_ = RM.variations(RM._plain(pd), unpacked)
+        vars_2 = RM.variations(RM._plain(pd2), unpacked)
 
         first_skip = [False]
 
@@ -140,13 +149,16 @@ def execute(cfg, ctx, chk, lookups=True):
             return ANSWERS[c]
 
         ref_runs = []
-        for _ in range(runs):
+        for run_i in range(runs):
             rvs = []
-            for i, vals in enumerate(vars_):
+            for i, vals in enumerate(vars_ if run_i == 0 else vars_2):
                 if single is not None and i != single:
                     continue
-                rvs.append(RM.ref_run_variation(RM.RefVariation(i, vals), rep_max, keep, next_answer))
+                rvs.append(RM.ref_run_variation(RM.RefVariation(i, vals), rep_max if run_i == 0 else rep_max2,
+                                                keep, next_answer))
             ref_runs.append(rvs)
+        if runs == 2:
+            vars_, pd = vars_2, pd2      # look-ups are judged on the final state
         rvs = ref_runs[-1]
         case = dict(cfg=cfg, choices=list(ctx.choices))
         how = "first_repetition_skipped" if first_skip[0] else "no_first_rep_skip"
@@ -200,6 +212,33 @@ def execute(cfg, ctx, chk, lookups=True):
     finally:
         if fs is not None:
             fs.cleanup()
+
+
+def second_run_setup(pd, unpacked, rep_max, mode):
+    """the parameters of the second simulate() on the same runner"""
+    pd2 = dict(pd)
+    rep_max2 = rep_max
+    if mode in ("twice_setitem", "twice_add") and unpacked:
+        n = sorted(unpacked)[0]
+        vals = list(pd[n])
+        # other values, other length: the second run must iterate the NEW grid
+        fresh = (vals[0] + "q") if isinstance(vals[0], str) else (max(vals) * 7 + 1)
+        new = vals[::-1] + [fresh]
+        pd2[n] = np.array(new) if isinstance(pd[n], np.ndarray) else new
+    if mode == "twice_rep_max":
+        rep_max2 = rep_max + 1
+    return pd2, rep_max2
+
+
+def change_between_runs(runner, mode, pd2, unpacked):
+    if mode == "twice_setitem":
+        n = sorted(unpacked)[0]
+        runner.params[n] = pd2[n]            # item assignment
+    elif mode == "twice_add":
+        n = sorted(unpacked)[0]
+        runner.params.add(n, pd2[n])
+    elif mode == "twice_rep_max":
+        runner.rep_max = runner.rep_max + 1
 
 
 def check_lookups(chk, case, res, pd, unpacked, vars_, sums):
@@ -263,7 +302,7 @@ def main(chk):
 
     def cost(cfg):
         nvar = int(np.prod(list(cfg["lengths"].values()))) if cfg["lengths"] else 1
-        calls = nvar * cfg["rep_max"] * (2 if cfg["mode"] == "twice" else 1)
+        calls = nvar * cfg["rep_max"] * (2 if cfg["mode"].startswith("twice") else 1)
         return (2.0 * calls) ** cfg["bound"]
 
     # longest-processing-time-first round robin (deterministic) for load balance
